@@ -25,6 +25,30 @@ query_prefixed = Fn(F, "query_prefixed", impl="RuledefMap", slot="defs", ret="re
     inserts=[Insert("            if i < MAX_PREFIX_SIZE &&", "            proof { assert forall|k: RuledefMapPrefix| k@ =~= trunc(prefix@, i as int) implies k == subprefix by { assert(k@ =~= subprefix@); assert(k =~= subprefix); } }\n", where="before")],
 )
 
+FRD = "src/asm/defs/ruledef.rs"
+insert = Fn(F, "insert", impl="RuledefMap", slot="defs", props=["C08", "C03"],
+    ensures=[
+        C("filed_under_its_leading_literals",
+          "forall|k: RuledefMapPrefix| k@ =~= rule_key(rule.pattern@) ==> #[trigger] final(self).bucket(k) == old(self).bucket(k).push(RuledefMapEntry { ruledef_ref: ruledef_ref, rule_ref: rule_ref })", ["C08"]),
+        C("other_buckets_untouched",
+          "forall|k: RuledefMapPrefix| !(k@ =~= rule_key(rule.pattern@)) ==> #[trigger] final(self).bucket(k) == old(self).bucket(k)", ["C08"]),
+    ],
+    rewrites=[
+        Rewrite("for part in &rule.pattern", "for part in it: &rule.pattern", rule="R5", why="ghost iterator named"),
+        Rewrite("        self.prefixes_to_rules\n            .entry(prefix)\n            .or_insert_with(|| Vec::new())\n            .push(entry);",
+                "        verif_bucket_push(&mut self.prefixes_to_rules, prefix, entry);", rule="R19",
+                why="HashMap entry API -> prelude wrapper with an ASSUMED contract (append to the bucket of the key)"),
+    ],
+    loops={"for part in": Loop(invariant_except_break=[
+        C("all_exact_so_far", "prefix_index == it.index@ && prefix_index <= 4 && lead(rule.pattern@, it.index@ as int) == it.index@"),
+    ], invariant=[
+        C("prefix", "prefix_index <= 4 && forall|j: int| 0 <= j < 4 ==> #[trigger] prefix@[j] == (if j < prefix_index { spec_lower(rule.pattern@[j]->Exact_0) } else { '\\0' })"),
+    ], ensures=[
+        C("run_of_literals_ended", "prefix_index <= 4 && lead(rule.pattern@, prefix_index as int) == prefix_index && (prefix_index == 4 || prefix_index >= rule.pattern@.len() || !(rule.pattern@[prefix_index as int] is Exact))"),
+    ], body_start="            proof { assert(*part == rule.pattern@[it.index@ as int]); lemma_lead_step(rule.pattern@, it.index@ as int); }")},
+    inserts=[Insert("        let entry = RuledefMapEntry {", "        proof { lemma_lead_total(rule.pattern@, prefix_index as int); assert(prefix@ =~= rule_key(rule.pattern@)); assert forall|k: RuledefMapPrefix| #[trigger] k@ =~= rule_key(rule.pattern@) implies k == prefix by { assert(k@ =~= prefix@); assert(k =~= prefix); } }\n", where="before")],
+)
+
 UNIT = Unit(
     "U-rulemap", "u_rulemap/skeleton.rs",
     items=itemref_items("util") + [
@@ -33,6 +57,8 @@ UNIT = Unit(
         Type(F, "struct", "RuledefMap", slot="defs"),
         Type(F, "struct", "RuledefMapEntry", slot="defs", derive="Clone, Copy"),
         query_prefixed,
+        Type(FRD, "struct", "Rule", slot="defs"), Type(FRD, "type", "RulePattern", slot="defs"), Type(FRD, "enum", "RulePatternPart", slot="defs"),
+        insert,
     ],
     serves=["C08", "C03"],
     description="asm::defs::RuledefMap::query_prefixed: the rule prefix index is queried with every truncation of the instruction prefix",
